@@ -39,7 +39,7 @@ def allSome {α} : List (Option α) → Option (List α)
   | none :: _ => none
   | some a :: t => (allSome t).map (a :: ·)
 
-inductive Err | missingArg | keyError | indexError | badRef
+inductive Err | missingArg | keyError | indexError | badRef | valueError
   deriving DecidableEq, Repr
 
 /-- `_set_input_args_for_function`:
@@ -94,6 +94,43 @@ def removeDefaults : Dict → List String → Dict × Bool
     | some d' => removeDefaults d' ks
     | none => (d, false)
 
+/-! ### `apply_to_batch` (the `vectorize=True` path of `UserFunction.__call__`): one invocation per row
+
+  A batched value is the list of its rows.  `batch_size = max(len(inp[key]) for key in inp)`; invocation
+  `i` receives `inp[key][i]` for every key whose value has exactly `batch_size` rows and the whole value
+  for every other key. -/
+
+abbrev BVal := List Val
+
+inductive Arg | row (v : Val) | whole (b : BVal)
+  deriving DecidableEq, Repr
+
+/-- `max(len(inp[key]) for key in inp)`; `none` = ValueError (max of an empty sequence) -/
+def batchSize : List (String × BVal) → Option Nat
+  | [] => none
+  | kv :: t => some (t.foldl (fun m kv => max m kv.2.length) kv.2.length)
+
+/-- the keyword dictionary of invocation `i`; `none` = IndexError (cannot happen for `i < bs`) -/
+def rowArgs (inp : List (String × BVal)) (bs i : Nat) : Option (List (String × Arg)) :=
+  allSome (inp.map fun kv =>
+    if kv.2.length = bs then (kv.2[i]?).map fun v => (kv.1, Arg.row v)
+    else some (kv.1, Arg.whole kv.2))
+
+def applyToBatch (inp : List (String × BVal)) : Except Err (List (List (String × Arg))) :=
+  match batchSize inp with
+  | none => .error .valueError
+  | some bs =>
+    match allSome ((List.range bs).map (rowArgs inp bs)) with
+    | some rows => .ok rows
+    | none => .error .indexError
+
+/-- the rows of the batched value with identifier `v` and `len` rows (transport convention of the driver) -/
+def rowsOf (v : Val) (len : Nat) : BVal := (List.range len).map fun (i : Nat) => v * 1000 + (i : Int)
+
+/-- interpret the opaque values of an assembled keyword dictionary as batched values -/
+def batched (lens : List (Val × Nat)) (kw : Dict) : Option (List (String × BVal)) :=
+  allSome (kw.map fun kv => (lens.lookup kv.2).map fun n => (kv.1, rowsOf kv.2 n))
+
 /-! ### heap of dict cells and wrappers -/
 
 structure UF where
@@ -115,6 +152,7 @@ inductive Op
   | wrapExplicit (fn : Nat) (params : List String) (dc : Option Nat)  -- UserFunction(f, defaults=…, args=[…])
   | rewrap (r : Nat)                                        -- UserFunction(u); also copy.copy(u)
   | call (r : Nat) (env : Dict)
+  | callVec (r : Nat) (env : Dict) (lens : List (Val × Nat))   -- u(env, vectorize=True); lens: rows per value
   | partialEval (r : Nat) (σ : Dict)
   | setDefault (r : Nat) (σ : Dict)
   | removeDefault (r : Nat) (ks : List String)
@@ -127,6 +165,7 @@ inductive Out
   | wrapper (r : Nat)
   | value (fn : Nat) (kw : Dict)       -- the user's function `fn` was invoked with `**kw`; its value is returned
   | const (fn : Nat)                   -- the wrapped constant itself is returned
+  | batch (fn : Nat) (invocations : List (List (String × Arg)))   -- one invocation of `fn` per row
   | err (e : Err)
   deriving DecidableEq, Repr
 
@@ -164,6 +203,19 @@ def step (h : Heap) : Op → Heap × Out
     | some (u, d) =>
       match call u.params d env with
       | .ok kw => (h, if u.callable then .value u.fn kw else .const u.fn)
+      | .error e => (h, .err e)
+    | none => (h, .err .badRef)
+  | .callVec r env lens =>
+    match h.look r with
+    | some (u, d) =>
+      match call u.params d env with
+      | .ok kw =>
+        match batched lens kw with
+        | some inp =>
+          match applyToBatch inp with
+          | .ok rows => (h, .batch u.fn rows)
+          | .error e => (h, .err e)
+        | none => (h, .err .badRef)
       | .error e => (h, .err e)
     | none => (h, .err .badRef)
   | .partialEval r σ =>
